@@ -158,7 +158,7 @@ def mpo_dense_of(basis, terms, stacked):
     from renormalizer.mps import Mpo
     if stacked:
         mpos = [Mpo(Model(basis, t)) for t in terms]
-        return sum(S.dense(m) for m in mpos), mpos
+        return sum((S.dense(m) for m in mpos), np.zeros((2 ** len(basis),) * 2)), mpos
     m = Mpo(Model(basis, terms))
     return S.dense(m), [m]
 
@@ -910,6 +910,9 @@ def enumerate_cases(tier, seed):
 def check(run):
     from props import C17_proof
     C17_proof.prove(run)
+    from props import C17_sym
+    from vk.symx.harness import guarded
+    guarded(run, C17_sym.prove)
     cases = enumerate_cases(run.tier, run.seed)
     leds = run_cases(run, worker, cases)
     obs = [o for led in leds for o in getattr(led, "obs", []) if o]
@@ -945,7 +948,9 @@ def check(run):
                 "contract": "dense(mpo) after the swaps == fermionic Hamiltonian written in orbital order [0, 3, 2, 1] == F H F^T"})
     run.sample({"part": "evolve", "model": "vibronic", "nsites": 4, "ofs": "ofs_s", "M": 128,
                 "contract": "dense(mps(t)) == P exp(-iHt) psi0 within 8*n*steps*1e-6, dense(mpo) == P H P^T, P = permutation recorded in mps.model"})
-    run.explanation = ("Runtime contracts only (bounded stand-in, nothing proved).  The Jordan-Wigner model is compared with a Hamiltonian assembled from "
+    run.explanation = ("Deductive parts: the sign loop of simplify_op (pyvc), and Engine S: int_to_h / qc_model executed on indeterminate integrals equal the "
+                       "anticommuting-operator Hamiltonian for all integral values (number of orbitals enumerated).  Everything else is runtime contracts "
+                       "(bounded stand-in).  The Jordan-Wigner model is compared with a Hamiltonian assembled from "
                        "anticommuting operators defined on occupation bit strings; site exchanges are compared with explicit permutation / fermionic-swap "
                        "matrices; OFS runs are compared with exact diagonalisation / matrix exponentials at complete bond dimension, where two-site DMRG and "
                        "two-site projector splitting are exact.  Truncating runs are only held to the variational bound and to the consistency of state and "
